@@ -111,4 +111,70 @@ zero allocation. -/
 example : (readCmp (encU8 2 ++ encU32 4294967295)).alloc = 0 ∧
     (readCmp (encU8 2 ++ encU32 4294967295)).res = .error := by decide
 
+
+/-! ### vault header and contents -/
+
+theorem good_Bool : Good readBool := Good.bind (Good.readNat 1) (fun _ => Good.ret _)
+
+theorem good_Opt {d : Dec α} (present : Bool) (hd : Good d) : Good (readOpt present d) := by
+  unfold readOpt
+  cases present with
+  | true => simpa using Good.bind hd (fun _ => Good.ret _)
+  | false => simpa using (Good.ret (none : Option α))
+
+theorem good_VaultMeta : Good readVaultMeta :=
+  Good.bind good_DateTime (fun _ => Good.bind Good.readString (fun _ => Good.ret _))
+
+theorem good_Auth : Good readAuth :=
+  Good.bind good_Bool (fun hs => Good.bind (good_Opt hs Good.readString) (fun _ =>
+    Good.bind good_Bool (fun hd => Good.bind (good_Opt hd (Good.readN 32)) (fun _ => Good.ret _))))
+
+theorem good_Id (table : List (String × Nat)) : Good (readId table) :=
+  Good.bind (Good.readNat 1) (fun _ => Good.ite (Good.ret _) Good.fail)
+
+theorem good_Summary : Good readSummary :=
+  Good.bind (Good.readNat 2) (fun _ => Good.bind (good_Id _) (fun _ => Good.bind (good_Id _) (fun _ =>
+    Good.bind (Good.readN 16) (fun _ => Good.bind Good.readString (fun _ => Good.bind (Good.readNat 8) (fun _ =>
+      Good.ite (Good.ret _) Good.fail))))))
+
+/-- the recipient list is read item by item (no reservation for the declared count) -/
+theorem good_SharedAccess : Good readShared :=
+  Good.bind (Good.readNat 1) (fun _ =>
+    Good.ite (Good.bind (Good.readNat 2) (fun n => Good.bind (Good.readMany Good.readString n) (fun _ => Good.ret _)))
+      (Good.ite (Good.bind good_AeadPack (fun _ => Good.ret _)) Good.fail))
+
+theorem good_Header : Good readHeader :=
+  Good.bind (Good.readFixed 4) (fun _ => Good.ite
+    (Good.bind (Good.readNat 4) (fun _ => Good.bind good_Summary (fun _ => Good.bind good_Bool (fun hm =>
+      Good.bind (good_Opt hm good_AeadPack) (fun _ => Good.bind good_Auth (fun _ =>
+        Good.bind good_SharedAccess (fun _ => Good.ret _)))))))
+    Good.fail)
+
+theorem good_Row : Good readRow :=
+  Good.bind (Good.readNat 4) (fun _ => Good.bind (Good.readN 16) (fun _ =>
+    Good.bind good_VaultCommit (fun _ => Good.bind (Good.readNat 4) (fun _ => Good.ret _))))
+
+theorem good_Rows : ∀ fuel, Good (readRows fuel)
+  | 0 => by
+    intro b
+    unfold readRows
+    by_cases h : b = []
+    · simp only [h, if_true]; exact Good.ret _ []
+    · simp only [h, if_false]; exact (Good.fail (α := List (Bytes × VaultCommit))) b
+  | fuel + 1 => by
+    intro b
+    unfold readRows
+    by_cases h : b = []
+    · simp only [h, if_true]; exact Good.ret _ []
+    · simp only [h, if_false]
+      exact (Good.bind good_Row (fun _ => Good.bind (good_Rows fuel) (fun _ => Good.ret _))) b
+
+/-- a vault file of ANY content: no panic, no oversized request, never reads past the end -/
+theorem good_Contents : Good readContents := by
+  intro b
+  exact (Good.bind (good_Rows b.length) (fun _ => Good.ret _)) b
+
+theorem good_Vault : Good readVault :=
+  Good.bind good_Header (fun _ => Good.bind good_Contents (fun _ => Good.ret _))
+
 end Sos.Props.C15
